@@ -240,3 +240,116 @@ Theorem C01_mrt_unparsable_changes_nothing : forall bytes fs1 name rc recs1 p re
     MrtModel.i_import (fs1 ++ MrtModel.FGood name (rc :: recs1 ++ recs2) :: fs2).
 Proof. exact MrtRawProofs.raw_undecodable_changes_nothing. Qed.
 Print Assumptions C01_mrt_unparsable_changes_nothing.
+
+(* ------------------------------------------------------------------ *)
+(* BMP traffic as OCTETS (Pipe/PipeWire.v): the composition of the wire layer of C05 (Bmp/BmpWire.v: framing
+   [stream], the RFC 7854 codec; Bmp/BmpWireAbs.v: [abstract]) with the end-to-end refinement above. A history
+   is a list of [xop]: an operation of the world as it is, or [XOctets k bs] - router k's connection delivers
+   the octets bs, ANY octets, cut anywhere (what is left of an incomplete message stays pending for the next
+   delivery of that connection). [wire_ops] is the message history the octets decode to: a frame that decodes
+   is [WMsg k (abstract m)], a frame that does not is what the model calls unparsable (no operation), a length
+   field below 5 ends the connection ([WDisconnect k]).
+   A WIRE IDENTITY at the octet level is (router key, the per-peer header fields routecore compares) =
+   (k, BmpWireAbs.ident p); in the model it is (k, abs_pph p). *)
+From RV Require Import Bmp.BmpWireAbs Pipe.PipeWire Pipe.PipeWireProofs.
+From RV Require Bmp.BmpWire.
+
+(* what comes out of octets meets the premises of the pipeline theorems by construction: they are asked of
+   the operations that are not octets only *)
+Theorem C01_wire_stream_premises : forall h,
+  (xdisciplined h = true -> disciplined (wire_ops h) = true) /\ (xfams_ok h = true -> fams_ok (wire_ops h) = true).
+Proof. exact wire_ops_premises. Qed.
+Print Assumptions C01_wire_stream_premises.
+
+(* for EVERY history whose BMP traffic is given as octet streams: the RIB of the model of the code answers
+   every (family, prefix, wire identity) as C01_pipeline_rib_answer says for the decoded message history -
+   the ideal RIB's entry, except for class K3; class K2 is excluded by [NoShare] *)
+Theorem C01_wire_stream_refines_ideal : forall h x i f p,
+  xdisciplined h = true -> xfams_ok h = true -> (N.of_nat (length (wire_ops h)) < two32 - 2)%N ->
+  NoShare (w_ids (run_world (wire_ops h)).1) ->
+  id_of (w_ids (run_world (wire_ops h)).1) x = Some i ->
+  rib_lookup (w_rib (run_world (wire_ops h)).1) (f, p, i) =
+  match s_rib (run_sworld (wire_ops h)).1 !! (f, p, x) with
+  | Some (s, a) => Some (s && negb (downed (evs_of (world_updates (wire_ops h))) (f, p, i)), a)
+  | None => None
+  end.
+Proof. exact wire_stream_rib_answer. Qed.
+Print Assumptions C01_wire_stream_refines_ideal.
+
+(* ... and the ideal RIB's entry of a wire identity is the last-event reading of the updates the pipeline applied *)
+Theorem C01_wire_stream_ideal_is_replay : forall h x i f p,
+  xdisciplined h = true -> xfams_ok h = true -> (N.of_nat (length (wire_ops h)) < two32 - 2)%N ->
+  NoShare (w_ids (run_world (wire_ops h)).1) ->
+  id_of (w_ids (run_world (wire_ops h)).1) x = Some i ->
+  s_rib (run_sworld (wire_ops h)).1 !! (f, p, x) = spec_lookup (evs_of (world_updates (wire_ops h))) (f, p, i).
+Proof. exact wire_stream_ideal_is_replay. Qed.
+Print Assumptions C01_wire_stream_ideal_is_replay.
+
+(* round trip: streams that ARE encodings (the proved encoder on well-formed wire messages) decode to the
+   messages that were encoded ... *)
+Theorem C01_wire_stream_decodes_to_messages : forall h, mwf h = true -> wire_ops (enc_hist h) = abs_hist h.
+Proof. exact wire_ops_encoded. Qed.
+Print Assumptions C01_wire_stream_decodes_to_messages.
+
+(* ... so the code's RIB, fed with the OCTETS, answers as the ideal RIB of the messages that were encoded *)
+Theorem C01_wire_stream_roundtrip : forall h x i f p,
+  mwf h = true -> mdisciplined h = true -> mfams_ok h = true -> (N.of_nat (length (abs_hist h)) < two32 - 2)%N ->
+  NoShare (w_ids (run_world (abs_hist h)).1) ->
+  id_of (w_ids (run_world (abs_hist h)).1) x = Some i ->
+  rib_lookup (w_rib (run_world (wire_ops (enc_hist h))).1) (f, p, i) =
+  match s_rib (run_sworld (abs_hist h)).1 !! (f, p, x) with
+  | Some (s, a) => Some (s && negb (downed (evs_of (world_updates (abs_hist h))) (f, p, i)), a)
+  | None => None
+  end.
+Proof. exact wire_stream_roundtrip. Qed.
+Print Assumptions C01_wire_stream_roundtrip.
+
+(* where the octets of a connection are cut into deliveries does not matter (TCP segmentation): two consecutive
+   deliveries are the delivery of their concatenation, unless the first already ended the connection - and
+   after a length field below 5 nothing that follows is read *)
+Theorem C01_wire_stream_segmentation : forall pd k a b h, (BmpWire.stream (pd k ++ a)).2 <> BmpWire.SShort ->
+  wire_run pd (XOctets k a :: XOctets k b :: h) = wire_run pd (XOctets k (a ++ b) :: h).
+Proof. exact deliveries_join. Qed.
+Print Assumptions C01_wire_stream_segmentation.
+
+Theorem C01_wire_stream_short_length_ends : forall k a b, (BmpWire.stream a).2 = BmpWire.SShort ->
+  deliver k (a ++ b) = deliver k a.
+Proof. exact deliver_short. Qed.
+Print Assumptions C01_wire_stream_short_length_ends.
+
+(* a frame of the stream is C05's pipeline operation [wire_bmp]: refused frames are no operation *)
+Theorem C01_wire_stream_frame_is_wire_bmp : forall k fr,
+  item_ops k (match BmpWire.decode fr with Some m => BmpWire.SMsg m | None => BmpWire.SBad fr end) =
+  match wire_bmp k fr with Some o => [o] | None => [] end.
+Proof. exact item_ops_wire_bmp. Qed.
+Print Assumptions C01_wire_stream_frame_is_wire_bmp.
+
+(* the wire identity at the octet level: two per-peer headers on two connections name the same identity of the
+   model exactly when the router is the same and routecore's PartialEq holds (C05_wire_peer_identity); every
+   per-peer header the decoder yields is well-formed, so this covers all traffic that reaches the state machine *)
+Theorem C01_wire_identity : forall k k' p q, BmpWire.pph_wf p = true -> BmpWire.pph_wf q = true ->
+  (((k, abs_pph p) : wid) = (k', abs_pph q) <-> k = k' /\ ident p = ident q).
+Proof. exact wire_identity. Qed.
+Print Assumptions C01_wire_identity.
+
+Theorem C01_wire_decoded_header_wf : forall b m p,
+  BmpWire.decode b = Some m -> msg_pph m = Some p -> BmpWire.pph_wf p = true.
+Proof. exact decode_pph_wf. Qed.
+Print Assumptions C01_wire_decoded_header_wf.
+
+(* a connection on the wire: the first ten octets of Initiation / Peer Up / Route Monitoring (10.9.0.0/16) - the
+   delivery ends inside the Initiation message -, then the rest followed by a frame of type 9 (refused); a query;
+   five octets whose length field says 4 (the connection is given up); a query. The Peer Up and the Route
+   Monitoring header differ in their timestamps only: one wire identity *)
+Example C01_wire_stream_example :
+  xdisciplined wire_ex_hist = true /\ xfams_ok wire_ex_hist = true /\
+  (exists u, wire_ops wire_ex_hist =
+     [WConnect 0; WMsg 0 MInit; WMsg 0 (MPeerUp (abs_pph (ex_pph 0 1)) true); WMsg 0 (MRoute (abs_pph (ex_pph 0 2)) (Some u));
+      WQuery 0 pfx_10_9; WDisconnect 0; WQuery 0 pfx_10_9]%N) /\
+  abs_pph (ex_pph 0 1) = abs_pph (ex_pph 0 2) /\
+  NoShare (w_ids (run_world (wire_ops wire_ex_hist)).1) /\
+  id_of (w_ids (run_world (wire_ops wire_ex_hist)).1) (0%N, abs_pph (ex_pph 0 1)) = Some 3%N /\
+  (exists a, nth_error (run_world (wire_ops wire_ex_hist)).2 4%nat = Some (WoEntries [(3%N, true, a)]) /\
+             last (run_world (wire_ops wire_ex_hist)).2 = Some (WoEntries [(3%N, false, a)]) /\
+             last (run_sworld (wire_ops wire_ex_hist)).2 = Some (SoEntries [((0%N, abs_pph (ex_pph 0 1)), false, a)])).
+Proof. exact wire_example_ok. Qed.
